@@ -178,7 +178,12 @@ func c12ready(c *core.Ctx, r *core.Reporter) {
 				for _, a := range call.Call.Args {
 					if mi, ok := a.(*ssa.MakeInterface); ok {
 						if core.IsNamed(mi.X.Type(), closPath, "StandardClass") || core.IsNamed(mi.X.Type(), closPath, "ConditionClass") {
-							userClass = true
+							// a definition registers the class object it has just built; making an existing,
+							// already merged class visible under a second package (pkg/clos.init registers the
+							// standard conditions in common-lisp as well) defines nothing and changes no hierarchy
+							if _, fresh := mi.X.(*ssa.Alloc); fresh {
+								userClass = true
+							}
 						}
 					}
 				}
